@@ -520,7 +520,8 @@ def _places_in(o):
 
 def rules(ctx):
     from . import c15
-    return [r06_1, r06_2, r06_3, r06_5, r06_6, r06_7, r06_8, c15.r15_2]
+    from . import c20
+    return [r06_1, r06_2, r06_3, r06_5, r06_6, r06_7, r06_8, c15.r15_2, c20.r20_5]
 
 
 EXPLANATION = (
